@@ -59,7 +59,7 @@ PROPS = {
     ),
     "C05": dict(
         src=[("props/c05.cpp", 4)],
-        quick_cases=300, thorough_cases=5000, procs=16,
+        quick_cases=120, thorough_cases=3000, procs=16,
         rule="cases are (type, tangent a) from a tape (rotation magnitude stratified around the small-angle switch, capped at "
              "pi-1e-3; translations up to 1e3), generated polynomial matrix factors (size 1..6, 1..6 variables) and generated "
              "cubic polynomial maps f, g of static and dynamic sizes with dense/sparse outer Jacobian; non-trivial = "
@@ -111,7 +111,7 @@ PROPS = {
         assumptions=["dense dr_exp/dr_expinv/d2r_exp/d2r_expinv/ad are correct (C03-C05)"],
     ),
     "C20": dict(
-        fuzz=['c20.binary_interval_search.long', 'c20.integrate_absolute_polynomial'], fuzz_seconds=150,
+        fuzz=['c20.binary_interval_search.medium', 'c20.integrate_absolute_polynomial'], fuzz_seconds=150,
         src=[("props/c20.cpp", 4)],
         quick_cases=3000, thorough_cases=60000, procs=16,
         rule="exhaustive: every basis x degree 0..10 on a 257-point grid, every monomial_integral / lgr_nodes table, every sorted range of length 0..8 over {0..4} "
@@ -136,7 +136,7 @@ PROPS = {
     ),
     "C10": dict(
         src=[("props/c10.cpp", 1)],
-        quick_cases=4000, thorough_cases=60000, procs=16,
+        quick_cases=700, thorough_cases=12000, procs=16,
         rule="cases are (J, d, r, lambda) from a tape: J 1..40 x 1..40 (and static 1x1, 3x2, 6x6, 4x7), dense and the same matrix as SparseMatrix, density 0.1..1, "
              "full rank / zero or duplicated column / rank-k product, tall and wide; d in 1e-3..1e3; r generic / zero / orthogonal to range(J); lambda = 1/Delta in 1e-6..1e6; "
              "non-trivial = J'r != 0; distinct = hash of decoded values",
@@ -160,7 +160,7 @@ PROPS = {
     ),
     "C11": dict(
         src=[("props/c11.cpp", 5)],
-        quick_cases=250, thorough_cases=4000, procs=16,
+        quick_cases=120, thorough_cases=3000, procs=16,
         rule="cases are (degree K=1..6, group in {SO3, SE2, SE3, Bundle<SO3,R2>, R3}, cumulative basis in {Bernstein, B-spline, generated matrix}, u in {0, 1} or (0,1), "
              "differences v_i with rotation norm < pi-0.1, anchor g0) from a tape; non-trivial = 0 < u < 1 and >= 2 non-commuting differences; distinct = hash of decoded values",
         technique="property-based testing against products of matrix exponentials carried as order-3 matrix Taylor polynomials (exact value / velocity / acceleration / jerk) and central differences of that reference for the Jacobians",
@@ -171,7 +171,7 @@ PROPS = {
     "C12": dict(
         fuzz=['c12.history<K=3,SO3>', 'c12.history<K=2,SE2>', 'c12.history<K=3,R2>'], fuzz_seconds=150,
         src=[("props/c12.cpp", 5)],
-        quick_cases=200, thorough_cases=3000, procs=16,
+        quick_cases=100, thorough_cases=2500, procs=16, timeout=1500,
         rule="cases are histories of 1..12 operations {+=, operator+, concat_global, copy, crop(local|global)} on splines built by Spline(T,V), ConstantVelocity, ConstantVelocityGoal, FixedCubic "
              "(durations 1e-2..1e2, up to 8 segments), crop end points from {0/t_max, beyond, exactly on a knot, inside the first segment, inside any segment}; after every operation the spline is evaluated at "
              "knots, knots +-1 ulp, interiors and out-of-range times; degrees 1..5; groups SO3, SE2, SE3, SO2, R2, R3; non-trivial = history with a crop starting in a later segment, a non-localised crop over >= 2 segments, or degree != 3",
